@@ -299,6 +299,19 @@ func (w *World) Run() {
 		w.St.Halted = "InitChain: " + p
 		w.EndedBy = "initchain-panic"
 		w.Ev("INITCHAIN PANIC %s", p)
+		if w.T.Knobs.BadGenesisParams != "" {
+			w.Probe("c16.invalid-genesis-params-refused")
+		}
+		for _, m := range w.Mons {
+			m.AtEnd(w)
+		}
+		return
+	}
+	if bad := w.T.Knobs.BadGenesisParams; bad != "" {
+		// the document carries parameters that break a validity rule: a node that starts from it holds
+		// stored parameters that are invalid (or none at all) from the first block on
+		w.Violate("C16", "C16/invalid-genesis-params-accepted/"+strings.Replace(bad, ":", "/", 1), "InitChain accepted a genesis document whose parameters break %s", bad)
+		w.EndedBy = "bad-genesis-accepted"
 		for _, m := range w.Mons {
 			m.AtEnd(w)
 		}
